@@ -311,9 +311,10 @@ theorem multiline_stdout_no_nul (cfg : Searcher.Config) (m : Searcher.MatcherI) 
 downgrade of `-U`): no NUL is written. -/
 theorem search_slice_stdout_no_nul (cfg : Searcher.Config) (m : Searcher.MatcherI) (σ : Searcher.Script)
     (inp : Bytes) (det : Det)
-    (hd : (det = .quit ∧ cfg.binary = .quit 0) ∨ (det = .convert ∧ cfg.binary = .convert 0))
-    (path : Bytes) (hp : 0 ∉ path) :
-    0 ∉ render path (stdRun det ((Searcher.searchSlice cfg m σ inp).events.filterMap toEv)) := by
+    (hd : (det = .quit ∧ cfg.binary = .quit binaryByte) ∨ (det = .convert ∧ cfg.binary = .convert binaryByte))
+    (path : Bytes) (hp : binaryByte ∉ path) :
+    binaryByte ∉ render path (stdRun det ((Searcher.searchSlice cfg m σ inp).events.filterMap toEv)) := by
+  unfold binaryByte at hd hp ⊢
   unfold Searcher.searchSlice
   split
   · exact multiline_stdout_no_nul cfg m σ inp det hd path hp
@@ -321,12 +322,13 @@ theorem search_slice_stdout_no_nul (cfg : Searcher.Config) (m : Searcher.Matcher
 
 /-- **`search_reader`, whichever strategy it selects** (the roll buffer line by line, or -- `-U` --
 the whole input read into memory and searched by `MultiLine`), any heap limit, capacity, read
-script: no NUL is written (line terminator ≠ NUL). -/
+script: ripgrep's binary byte (`binaryByte`, NUL, source-anchored) is never written (line terminator ≠ NUL). -/
 theorem search_reader_stdout_no_nul (cfg : Searcher.Config) (m : Searcher.MatcherI) (σ : Searcher.Script)
-    (heapLimit cap : Option Nat) (rdr : Reader) (hlt : 0 ≠ cfg.lineTerm.asByte) (det : Det)
-    (hd : (det = .quit ∧ cfg.binary = .quit 0) ∨ (det = .convert ∧ cfg.binary = .convert 0))
-    (path : Bytes) (hp : 0 ∉ path) :
-    0 ∉ render path (stdRun det ((Searcher.searchReader cfg m σ heapLimit cap rdr).events.filterMap toEv)) := by
+    (heapLimit cap : Option Nat) (rdr : Reader) (hlt : binaryByte ≠ cfg.lineTerm.asByte) (det : Det)
+    (hd : (det = .quit ∧ cfg.binary = .quit binaryByte) ∨ (det = .convert ∧ cfg.binary = .convert binaryByte))
+    (path : Bytes) (hp : binaryByte ∉ path) :
+    binaryByte ∉ render path (stdRun det ((Searcher.searchReader cfg m σ heapLimit cap rdr).events.filterMap toEv)) := by
+  unfold binaryByte at hlt hd hp ⊢
   unfold Searcher.searchReader
   split
   · exact multiline_stdout_no_nul cfg m σ rdr.data det hd path hp
